@@ -145,7 +145,12 @@ func c10Float[E float32 | float64](v *zzverif.T) {
 			}
 		}
 	}
-	v.AssertTensorNum("C10.named-function-applied-per-element", r.Outs[0], shape, want)
+	if op == "Abs" || op == "Relu" || op == "PRelu" {
+		// exactly defined, the sign of a zero included (Abs(-0) = +0, Relu(-0) = +0, PRelu(-0) = -0)
+		v.AssertTensor("C10.named-function-applied-per-element", r.Outs[0], shape, want)
+	} else {
+		v.AssertTensorNum("C10.named-function-applied-per-element", r.Outs[0], shape, want)
+	}
 
 	// IEEE behaviour of the activations that are built from exp / tanh
 	if (op == "Sigmoid" || op == "Tanh") && v.CBool("special") {
